@@ -42,6 +42,7 @@ type c11Run struct {
 	Err      string         `json:"err,omitempty"`
 	Tree     *c11Node       `json:"tree,omitempty"`
 	Rendered map[string]any `json:"rendered,omitempty"`
+	Leaks    []string       `json:"leaks,omitempty"` // chart Values after ProcessDependencies: see c11ValuesLeaks
 }
 
 type c11Obs struct {
@@ -99,6 +100,7 @@ func c11Pipeline(desc *vChart, vals map[string]any, pre func(c *chart.Chart)) (r
 	if err := chartutil.ProcessDependencies(c, v); err != nil {
 		return c11Run{Stage: "deps-error", Err: err.Error()}
 	}
+	leaks := c11ValuesLeaks(c, desc, desc.Name)
 	rv, err := chartutil.ToRenderValues(c, v, chartutil.ReleaseOptions{Name: "rel", Namespace: "ns", IsInstall: true, Revision: 1}, nil)
 	if err != nil {
 		return c11Run{Stage: "values-error", Err: err.Error()}
@@ -108,7 +110,7 @@ func c11Pipeline(desc *vChart, vals map[string]any, pre func(c *chart.Chart)) (r
 		return c11Run{Stage: "render-error", Err: err.Error()}
 	}
 	t := c11Tree(c)
-	run = c11Run{Stage: "ok", Tree: &t, Rendered: map[string]any{}}
+	run = c11Run{Stage: "ok", Tree: &t, Rendered: map[string]any{}, Leaks: leaks}
 	for p, s := range out {
 		pv, err := parseJSONVal(s)
 		if err != nil {
@@ -499,6 +501,10 @@ func (*c11) Oracle(ci, oi any) []hx.Violation {
 		}
 		vs = append(vs, hx.Violation{Sig: sig, What: "isolation / global flow broken on the implementation: " + m})
 	}
+	if len(obs.Leaks) > 0 {
+		vs = append(vs, hx.Violation{Sig: "C11:dependency-values-under-unkept-name",
+			What: "after ProcessDependencies a chart's Values hold, under the name of a disabled dependency or the original name of an aliased one, something its own values.yaml does not: " + strings.Join(obs.Leaks, ", ")})
+	}
 	// an aliased dependency appears under the alias only: every chart directory on a rendered
 	// path must be a key under which the input tree offers a subchart at that level
 	for p := range obs.Rendered {
@@ -528,6 +534,69 @@ func (*c11) Oracle(ci, oi any) []hx.Violation {
 		}
 	}
 	return vs
+}
+
+// descOf finds the description of the subchart that appears under the given name after
+// dependency processing; ambiguous when two chart directories could.
+func descOf(d *vChart, name string) (found *vChart, ambiguous bool) {
+	for _, s := range d.Charts {
+		for _, k := range offeredKeys(d, s) {
+			if k == name {
+				if found != nil && found != s {
+					return found, true
+				}
+				found = s
+			}
+		}
+	}
+	return found, false
+}
+
+// c11ValuesLeaks looks at every chart's Values AFTER the real ProcessDependencies: a key that is
+// the name of a chart directory or an alias of a requirement, but under which no subchart was
+// kept (the dependency is disabled, or appears under another name because it is aliased), must
+// hold exactly what the chart's own values.yaml holds there - nothing defaulted by or imported
+// for the dependency ("a disabled dependency contributes no default values", "an alias makes the
+// dependency appear under the alias name only").
+func c11ValuesLeaks(p *chart.Chart, d *vChart, path string) []string {
+	var out []string
+	kept := map[string]bool{}
+	for _, k := range p.Dependencies() {
+		kept[k.Name()] = true
+	}
+	related := map[string]bool{}
+	for _, s := range d.Charts {
+		related[s.Name] = true
+	}
+	for _, r := range d.Deps {
+		if r.Alias != "" {
+			related[r.Alias] = true
+		}
+	}
+	for _, x := range sortedKeys(related) {
+		if kept[x] || strings.Contains(x, ".") {
+			continue
+		}
+		var own any
+		if d.Values != nil {
+			own = d.Values[x]
+		}
+		var now any
+		_, inOwn := d.Values[x]
+		v, inNow := p.Values[x]
+		if inNow {
+			now = v
+		}
+		if inOwn != inNow || !jsonEq(normJSON(own), normJSON(now)) {
+			out = append(out, path+":"+x)
+		}
+	}
+	for _, k := range p.Dependencies() {
+		if dk, amb := descOf(d, k.Name()); dk != nil && !amb {
+			out = append(out, c11ValuesLeaks(k, dk, path+"/"+k.Name())...)
+		}
+	}
+	return out
 }
 
 // offeredKeys: the names under which subchart s of x may appear after dependency processing:
